@@ -10,10 +10,10 @@ CHECK = dict(
     ],
     units=[
         dict(name="composite", dir="internal/filter/internal/composite", src="C02/composite", runs=[
-            dict(name="verdict", run="^TestVerifC02Verdict$", quick=10000, thorough=160000, shards_quick=2, shards_thorough=8),
+            dict(name="verdict", run="^TestVerifC02Verdict$", quick=10000, thorough=300000, shards_quick=2, shards_thorough=8),
         ]),
         dict(name="mainmw", dir="internal/dnssvc/internal/mainmw", src="C02/mainmw", runs=[
-            dict(name="shape", run="^TestVerifC02Shape$", quick=8000, thorough=120000, shards_quick=2, shards_thorough=8),
+            dict(name="shape", run="^TestVerifC02Shape$", quick=8000, thorough=240000, shards_quick=2, shards_thorough=8),
         ]),
     ],
 )
